@@ -298,4 +298,8 @@ pub struct Seen {
     /// `req.match_pattern()`; recorded, not part of the oracle (the statement does not mention it)
     #[serde(default)]
     pub match_pattern: Option<String>,
+    /// what the (always-accepting) recording guard of the matched resource resolved
+    /// `GuardContext::app_data::<Marker>()` to: "-" if no such guard ran, "none", or the marker
+    #[serde(default)]
+    pub guard_marker: String,
 }
